@@ -9,7 +9,7 @@
 (***************************************************************************)
 EXTENDS Client, TLC
 
-CONSTANTS MaxOps, MaxClock, Small
+CONSTANTS MaxOps, MaxClock, Small, Tiny        \* Tiny: the smallest alphabet that still has every operation class (two operations per client finish with it)
 Clients == {1, 2}
 Cfg(c) == IF c = 1 THEN [api |-> 1, dev |-> <<1, 1, 1>>, key |-> <<17>>] ELSE [api |-> 2, dev |-> <<2, 2, 2>>, key |-> <<34>>]
 
@@ -18,7 +18,8 @@ W(key) == [key |-> key, para |-> <<80>>, hex |-> <<72>> \o key]
 PlainSet == [id |-> <<88>>, onoff |-> 0, waves |-> <<W(ModeCode(4) \o <<50, 48>> \o FanPart(1)), W(OffKey)>>]
 SepSet == [id |-> <<69, 76, 69, 67, 55, 48, 50, 50>>, onoff |-> 1,
            waves |-> <<W(ModeCode(4) \o <<50, 48>> \o FanPart(1)), W(OnPrefix \o ModeCode(4) \o <<50, 48>> \o FanPart(1)), W(SwingKey(1))>>]
-BreezeShapes == [set : {PlainSet, SepSet}, state : {-1, 1}, mode : IF Small THEN {0} ELSE {0, 2}, temp : {0}, fan : {-1}, swing : {-1, 1}, update : BOOLEAN]
+BreezeShapes == IF Tiny THEN [set : {SepSet}, state : {1}, mode : {0}, temp : {0}, fan : {-1}, swing : {-1, 1}, update : {FALSE}]
+                ELSE [set : {PlainSet, SepSet}, state : {-1, 1}, mode : IF Small THEN {0} ELSE {0, 2}, temp : {0}, fan : {-1}, swing : {-1, 1}, update : BOOLEAN]
 Reported == {[state |-> 0, mode |-> 4, target |-> 20, fan |-> 1, swing |-> 0, temp10 |-> 250, remote |-> <<88>>]}
              \cup (IF Small THEN {} ELSE {[state |-> 1, mode |-> 4, target |-> 20, fan |-> 1, swing |-> 1, temp10 |-> 250, remote |-> <<88>>]})
 
@@ -26,9 +27,10 @@ Reported == {[state |-> 0, mode |-> 4, target |-> 20, fan |-> 1, swing |-> 0, te
 Calls(c) ==
   IF Cfg(c).api = 1
   THEN {<<"get_state", "ok", NoCmd, NoBreeze>>}
-       \cup {<<"control_device", a, [kind |-> "control", on |-> 1, timer |-> Zeros(4)], NoBreeze>> : a \in {"ok", "reject", "open"}}
+       \cup {<<"control_device", a, [kind |-> "control", on |-> 1, timer |-> Zeros(4)], NoBreeze>> : a \in (IF Tiny THEN {"ok", "reject"} ELSE {"ok", "reject", "open"})}
        \cup (IF Small THEN {} ELSE {<<"create_schedule", a, [kind |-> "createschedule", mask |-> 2, start |-> Zeros(4), end |-> Zeros(4)], NoBreeze>> : a \in {"ok", "reject"}})
-  ELSE {<<"stop", "ok", [kind |-> "runnerstop"], NoBreeze>>, <<"get_shutter_state", "ok", NoCmd, NoBreeze>>}
+  ELSE (IF Tiny THEN {<<"get_shutter_state", "ok", NoCmd, NoBreeze>>}
+        ELSE {<<"stop", "ok", [kind |-> "runnerstop"], NoBreeze>>, <<"get_shutter_state", "ok", NoCmd, NoBreeze>>})
        \cup {<<"control_breeze_device", "ok", NoCmd, b>> : b \in BreezeShapes}
 
 VARIABLES inst, written, sessions, nextSess, clock, ndone, eof, last
